@@ -468,6 +468,7 @@ package trace
 //@   ensures bsp.o.MaxExportBatchSize > 0 ==> len(bsp.batch) < bsp.o.MaxExportBatchSize
 //@   loop#1 invariant bsp.o.MaxExportBatchSize > 0 ==> len(bsp.batch) < bsp.o.MaxExportBatchSize
 
+//@ ghost var bspFinal int
 //@ func (bsp *batchSpanProcessor) drainQueue()
 //@   prop C01
 //@   acquires bsp.batchMutex
@@ -477,6 +478,12 @@ package trace
 //@   modifies bsp.batch, elemscap(bsp.batch)
 //@   ensures len(bsp.batch) == 0
 //@   loop#1 invariant bsp.o.MaxExportBatchSize > 0 ==> len(bsp.batch) < bsp.o.MaxExportBatchSize
+// the drain ends only when a receive found the queue empty (the default case of the select, $sel == -1) and the final export
+// has been made in that very branch: an export error in the middle of the drain does not abandon the rest of the queue
+//@   ghost@call batchSpanProcessor.exportSpans#2 : bspFinal = 1
+//@   assert@call batchSpanProcessor.exportSpans#2 : $sel == -1
+//@   assert@call batchSpanProcessor.exportSpans#1 : $sel == 0
+//@   assert@return#* : bspFinal == 1 && $sel == -1
 
 // enqueue: an unsampled span is neither queued nor counted; a sampled one is either sent to the queue (exactly once) or, in
 // non-blocking mode with a full queue, counted as dropped (exactly once) - never both, never neither
